@@ -59,3 +59,53 @@ Theorem C04_a_reported_offset_is_a_record_position :
                                  http_req_ok http_resp_ok o (discard off s) = (0%nat, URec r e fnd' s').
 Proof. intros. eapply reported_offset_is_a_record_position; [exact gen_table_ok|eassumption]. Qed.
 Print Assumptions C04_a_reported_offset_is_a_record_position.
+
+(** Writer and reader put together (uncompressed files; Proofs/WriterReadProofs.v): a Write that
+    reports no error, followed by any further Writes and Rotates - in the end a reader placed at
+    the reported offset of the named file returns exactly the (stamped) record Write handed back,
+    without error or finding, and stands at the entry that follows, provided that record is valid
+    for the reader's options ([valid_record], the hypothesis of C01's reader theorem, which the
+    records of the strict builder meet: C01_strictly_built_record_round_trips).  For compressed
+    files the member boundaries are positions of the container, which is not modelled: evaluated
+    on the implementation. *)
+Require Import Model.HeaderParse Model.Digest Model.Validate Proofs.RoundTripProofs Proofs.WriterReadProofs.
+Theorem C04_a_reader_at_the_reported_offset_returns_the_record :
+  forall uni_lower conf name_of scale zsize info_rec,
+    (forall a b, name_of a = name_of b -> a = b) ->
+    forall uni_upper time_ok ip_ok uri_ok wid_ok mime_dec H b32 b64 http_req_ok http_resp_ok o bd pd tl
+           st r st1 resp r' recs ops stf all,
+      c_compress conf = false -> Inv conf name_of zsize st ->
+      w_write field_table uni_lower conf name_of scale zsize info_rec st r = (st1, resp, r') -> rs_err resp = false ->
+      w_run field_table uni_lower conf name_of scale zsize info_rec st1 recs ops = (stf, all) ->
+      valid_record field_table required_fields uni_lower uni_upper time_ok ip_ok uri_ok wid_ok mime_dec H b32 b64
+                   http_req_ok http_resp_ok o r' bd pd ->
+      r' = stamp field_table uni_lower (w_info st1) r /\
+      exists f after, In f (w_files stf) /\ f_name f = rs_name resp /\ (0 <= rs_off resp)%Z /\
+        parse_record field_table required_fields uni_lower uni_upper time_ok ip_ok uri_ok wid_ok mime_dec H b32 b64
+                     http_req_ok http_resp_ok o
+                     (mkst (skipn (Z.to_nat (rs_off resp)) (concat (f_entries f))) tl) []
+        = URec r' None [] (mkst (concat after) tl).
+Proof.
+  intros ul conf name_of scale zsize info_rec Hinj uu tk ik uk wk md H b32 b64 hq hr o bd pd tl st r st1 resp r' recs ops stf all.
+  exact (reader_at_reported_offset field_table ul conf name_of Hinj scale zsize info_rec uu tk ik uk wk md H b32 b64 hq hr o bd pd tl
+           st r st1 resp r' recs ops stf all).
+Qed.
+Print Assumptions C04_a_reader_at_the_reported_offset_returns_the_record.
+
+(** non-vacuity: the valid record of C01's example, written as second record of a fresh writer
+    without warcinfo; the response carries no error, the record comes back unstamped, the offset
+    is the length of the first entry *)
+Require Properties.C01.
+Definition exw_conf := mkconf 0%Z false false false.
+Definition exw_name (n : nat) : bytes := [N.of_nat n].
+Definition exw_write st := w_write field_table C01.ex_idb exw_conf exw_name (fun z => z) (fun _ => 0%Z) (fun _ => C01.ex_record) st C01.ex_record.
+Example C04_reader_hypotheses_are_satisfiable :
+  (forall a b, exw_name a = exw_name b -> a = b) /\
+  Inv exw_conf exw_name (fun _ => 0%Z) w_init /\
+  let '(st1, _, _) := exw_write w_init in
+  let '(_, resp, r') := exw_write st1 in
+  rs_err resp = false /\ r' = C01.ex_record /\ rs_off resp = Z.of_nat (length (marshal C01.ex_record)) /\ (0 < rs_off resp)%Z.
+Proof.
+  split; [intros a b E; injection E; apply Nnat.Nat2N.inj|]. split; [apply inv_init|].
+  vm_compute. repeat split.
+Qed.
